@@ -323,6 +323,9 @@ def as_term(x):
     return x
 
 
+PATH_START_HOOKS = []  # callables run before every path (models of process-level memo tables reset themselves here)
+
+
 def explore(harness, *, max_paths=1000, deadline=None, hints=(), range_bound=2, stats: Stats | None = None,
             first_prefixes=None, keep_cex=3, on_path=None):
     """Explore harness.run(ctx) over all feasible paths (up to the caps).
@@ -341,6 +344,8 @@ def explore(harness, *, max_paths=1000, deadline=None, hints=(), range_bound=2, 
         prefix = work.pop()
         c = Ctx(prefix, stats=stats, hints=hints, range_bound=range_bound)
         Ctx.cur = c
+        for hook in PATH_START_HOOKS:
+            hook()
         try:
             try:
                 obligations = harness.run(c)
